@@ -3,7 +3,7 @@
 
   case   := "sql" DB " ; " STMT (" ; " STMT)*
   DB     := TABLE ("/" TABLE)*            one word, tables are t0, t1, … in this order
-  TABLE  := TYS "=" [ROW ("|" ROW)*]      TYS: one letter per column  I=INT B=BIGINT O=BOOL S=TEXT D=DOUBLE ; columns are c0, c1, …
+  TABLE  := TYS "=" [ROW ("|" ROW)*]      TYS: one letter per column  I=INT B=BIGINT O=BOOL S=TEXT D=DOUBLE U=UINT W=BIGUINT F=FLOAT ; columns are c0, c1, …
   ROW    := VAL ("," VAL)*
   VAL    := "n" | "i"<decimal> | "b0" | "b1" | "t"<hex of the bytes> | "t-" (empty text)
           | "f"<IEEE-754 bits, decimal>        a DOUBLE (in D columns and as a literal compared with them; compare-only)
@@ -30,6 +30,7 @@
      | case<k> (E E)×k (else E | noelse)            searched CASE: k pairs condition, result
      | casex<k> E (E E)×k (else E | noelse)         simple CASE: operand, k pairs value, result
      | upper E | lower E | length E | ltrim E | rtrim E | cat E E      string functions, `a || b`
+     | abs E | ceil E | floor E | round E | nullif E E | coal<k> E×k    ABS … ROUND (DOUBLE results), NULLIF, COALESCE
 
   answer := OUT (" ; " OUT)*     one per statement
   OUT    := "Rset:" ROWS      no ORDER BY: rows in canonical (sorted) order
@@ -79,6 +80,8 @@ def toP : Expr → PExpr
   | .caseOf _ _ => .null
   | .strFn _ _ => .null       -- function calls neither
   | .concat a b => .bin .concat (toP a) (toP b)
+  | .nullif _ _ => .null
+  | .coalesce _ => .null
 def toPList : List Expr → List PExpr
   | [] => []
   | e :: es => toP e :: toPList es
@@ -128,7 +131,7 @@ end
 
 mutual
 def hasCase : Expr → Bool
-  | .caseWhen _ | .caseOf _ _ | .strFn _ _ | .lit (.dbl _) => true
+  | .caseWhen _ | .caseOf _ _ | .strFn _ _ | .lit (.dbl _) | .nullif _ _ | .coalesce _ => true
   | .not e | .neg e | .pos e | .isNull _ e => hasCase e
   | .and a b | .or a b | .cmp _ a b | .arith _ a b | .like _ a b | .concat a b => hasCase a || hasCase b
   | .between _ a b c => hasCase a || hasCase b || hasCase c
@@ -173,13 +176,7 @@ def shippedParserTable (flags : List String) : Option Parser.Table :=
 /-! ### DOUBLE values travel as `f<bits>` (IEEE-754 bit pattern, decimal); the model keeps their order key.
     Only integer arithmetic on the bit pattern is used. -/
 
-def two63 : Nat := 9223372036854775808
-
-def dblKeyOfBits (b : Nat) : Int := if b < two63 then (b : Int) else -(((b - two63 : Nat)) : Int)
-
-def dblBitsOfKey (k : Int) : Nat := if k ≥ 0 then k.toNat else two63 + (-k).toNat
-
-/-- the integer a double holds, if it holds one (of magnitude below 2^62): the harness prints such doubles as integers -/
+/-- the integer a double holds, if it holds one of magnitude below 9.2e18: the harness prints such doubles as integers -/
 def dblInteger? (bits : Nat) : Option Int :=
   let neg := decide (bits ≥ two63)
   let mag := bits % two63
@@ -189,7 +186,8 @@ def dblInteger? (bits : Nat) : Option Int :=
   if mag == 0 then some 0
   else if e == 0 || e == 2047 then none
   else if e ≥ 1075 then
-    if e - 1075 ≥ 10 then none else some (signed (m * 2 ^ (e - 1075)))
+    -- (the harness prints an integral double below 9.2e18 as an integer)
+    if e - 1075 ≥ 12 || m * 2 ^ (e - 1075) ≥ 9200000000000000000 then none else some (signed (m * 2 ^ (e - 1075)))
   else
     let sh := 1075 - e
     if sh > 52 then none
@@ -212,6 +210,7 @@ def allSome {α} : List (Option α) → Option (List α)
 
 def tyOfChar : Char → Option Ty
   | 'I' => some .int | 'B' => some .bigint | 'O' => some .bool | 'S' => some .text | 'D' => some .double
+  | 'U' => some .uint | 'W' => some .biguint | 'F' => some .float
   | _ => none
 
 def parseTable (w : String) : Option TableDef :=
@@ -274,6 +273,11 @@ def pExpr : Nat → P Expr
     | "ltrim" => (pExpr fuel ws).map fun (a, r) => (.strFn .ltrim a, r)
     | "rtrim" => (pExpr fuel ws).map fun (a, r) => (.strFn .rtrim a, r)
     | "cat" => (pExpr fuel ws).bind fun (a, r) => (pExpr fuel r).map fun (b, r) => (.concat a b, r)
+    | "abs" => (pExpr fuel ws).map fun (a, r) => (.strFn .abs a, r)
+    | "ceil" => (pExpr fuel ws).map fun (a, r) => (.strFn .ceil a, r)
+    | "floor" => (pExpr fuel ws).map fun (a, r) => (.strFn .floor a, r)
+    | "round" => (pExpr fuel ws).map fun (a, r) => (.strFn .round a, r)
+    | "nullif" => (pExpr fuel ws).bind fun (a, r) => (pExpr fuel r).map fun (b, r) => (.nullif a b, r)
     | "btw" => (pExpr fuel ws).bind fun (a, r) => (pExpr fuel r).bind fun (b, r) =>
         (pExpr fuel r).map fun (c, r) => (.between false a b c, r)
     | "nbtw" => (pExpr fuel ws).bind fun (a, r) => (pExpr fuel r).bind fun (b, r) =>
@@ -285,6 +289,9 @@ def pExpr : Nat → P Expr
       | none, some k => (pExprs fuel (2 * k) ws).bind fun (ps, r) =>
           (pElse fuel r).map fun (e, r) => (.caseWhen (ps ++ [e]), r)
       | none, none =>
+      match numAfter "coal" w with
+      | some k => (pExprs fuel k ws).map fun (xs, r) => (.coalesce xs, r)
+      | none =>
       match numAfter "nin" w, numAfter "in" w with
       | some k, _ => (pExpr fuel ws).bind fun (a, r) => (pExprs fuel k r).map fun (xs, r) => (.inList true a xs, r)
       | none, some k => (pExpr fuel ws).bind fun (a, r) => (pExprs fuel k r).map fun (xs, r) => (.inList false a xs, r)
